@@ -129,9 +129,12 @@ def _bit_names(f, testnode):
     for n in walk_shallow(f.node):
         if isinstance(n, ast.AugAssign) and isinstance(n.target, ast.Name) and n.target.id in ops and isinstance(n.op, (ast.LShift, ast.RShift)):
             bitvar = n.target.id
+        if isinstance(n, ast.Assign) and len(n.targets) == 1 and isinstance(n.targets[0], ast.Name) and n.targets[0].id in ops \
+                and isinstance(n.value, ast.BinOp) and n.targets[0].id in [x.id for x in ast.walk(n.value) if isinstance(x, ast.Name)]:
+            bitvar = n.targets[0].id  # x = x << 1, x = x * 2, ..
     assigned = []
     for n in walk_shallow(f.node):
-        if isinstance(n, ast.If) and n.test is testnode:
+        if isinstance(n, ast.If) and (n.test is testnode or util.contains(n.test, testnode)):
             for arm in (n.body, n.orelse):
                 for s_ in arm:
                     if isinstance(s_, ast.Assign) and isinstance(s_.targets[0], ast.Name):
@@ -269,7 +272,7 @@ def sib5(ctx, pid):
     pu = None
     for n in walk_shallow(f.node):
         if isinstance(n, ast.Return) and n.value is not None:
-            nm = [x.id for x in ast.walk(n.value) if isinstance(x, ast.Name) and x.id not in ("tuple", "reversed", "list")]
+            nm = [x.id for x in ast.walk(util.ret_deref(f, n)) if isinstance(x, ast.Name) and x.id not in ("tuple", "reversed", "list")]
             if len(nm) == 1:
                 pu = nm[0]
     for p, st in pq.states(ctx, f, unroll=1):
@@ -358,7 +361,7 @@ def sib5(ctx, pid):
     for p in ctx.X.paths(ex):
         if p.exit[0] == "return":
             caught = any(ev.k == "handler" and ev.a == "KeyError" for ev in p.events)
-            rv = p.exit[1].value
+            rv = util.path_deref(p, p.exit[1].value)
             outs.add((caught, rv.value if isinstance(rv, ast.Constant) else "?"))
     if outs == {(False, True), (True, False)}:
         ctx.ok("exists:SparseMerkleTree.exists", ex.loc(), "exists is True iff get(key) does not raise KeyError", rule="SIB1")
